@@ -118,6 +118,7 @@ public:
                 p = page_allocator_traits::allocate(page_allocator, 1);
             }).on_exception( [&] {
                 ++base.n_invalid_entries;
+                __TBB_VERIF_POINT(vp_cq_alloc_failed, this, 0);
                 // Invalidate the lane only when the turn of this ticket has come: the pushes holding the
                 // earlier tickets of the lane must have published their items (and the tail counter) first.
                 for (atomic_backoff b{};; b.pause()) {
@@ -168,6 +169,7 @@ public:
         });
 
         page_allocator_traits::construct(page_allocator, &(*p)[index], std::forward<Args>(args)...);
+        __TBB_VERIF_POINT(vp_cq_item_written, this, 0);
         // If no exception was thrown, mark item as present.
         p->mask.store(p->mask.load(std::memory_order_relaxed) | uintptr_t(1) << index, std::memory_order_relaxed);
         d1::call_itt_notify(d1::releasing, &tail_counter);
